@@ -345,3 +345,253 @@ Proof.
   apply (read_attrs_pack attrs [] packed rest); try assumption.
   rewrite app_length. cbn [List.length]. lia.
 Qed.
+
+(* ================================================================== the header block *)
+Lemma len_header_struct size v : len (header_struct size v) = HDR.
+Proof.
+  unfold header_struct. rewrite !len_app, !len_le_bytes.
+  change (field_off hdr_layout "size") with 504. change (len MAGIC) with 21.
+  rewrite len_repz by lia. reflexivity.
+Qed.
+
+Lemma pack_header_shape attrs v packed :
+  pack_attr_list attrs = Ok packed -> HDR + len packed + 4 <= BLOCK ->
+  pack_header attrs v =
+    Ok (header_struct (BLOCK - HDR) v ++ (packed ++ [0; 0; 0; 0]) ++ repz 0 (BLOCK - HDR - len packed - 4)).
+Proof.
+  intros Hp Hfit. unfold pack_header, pack_attrs. rewrite Hp. cbn [bind].
+  pose proof (len_nonneg packed) as H0.
+  assert (Hl : len (packed ++ [0; 0; 0; 0]) = len packed + 4) by (rewrite len_app; reflexivity).
+  rewrite Hl. change HDR with 512 in *. change BLOCK with 4096 in *.
+  destruct (Z.eq_dec (512 + (len packed + 4)) 4096) as [E|E].
+  - rewrite E. change (4096 mod 4096) with 0. cbn [Z.eqb].
+    replace (4096 + 0 - 512) with (4096 - 512) by lia.
+    replace (4096 - 512 - len packed - 4) with 0 by lia. reflexivity.
+  - rewrite Z.mod_small by lia.
+    destruct (Z.eqb_spec (512 + (len packed + 4)) 0) as [E0|_]; [lia|].
+    replace (512 + (len packed + 4) + (4096 - (512 + (len packed + 4))) - 512) with (4096 - 512) by lia.
+    replace (4096 - (512 + (len packed + 4))) with (4096 - 512 - len packed - 4) by lia. reflexivity.
+Qed.
+
+(* header_repack_identity, first half: what _pack_envelope_header writes for a well-formed attribute
+   set that fits the block is one block that the reader opens to exactly those attributes *)
+Lemma pack_header_opens attrs v hdr :
+  wf_attrs attrs -> fits attrs -> v = Gen.EnvelopeTables.envelope_header_version ->
+  pack_header attrs v = Ok hdr -> header_opens hdr attrs.
+Proof.
+  intros Hwf (packed & Hp & Hfit) -> Hh.
+  rewrite (pack_header_shape attrs _ packed Hp Hfit) in Hh.
+  match type of Hh with Ok ?X = _ => set (blk := X) in Hh end.
+  assert (E : hdr = blk) by congruence. subst hdr. unfold blk. clear Hh blk.
+  pose proof (len_nonneg packed) as H0.
+  unfold header_opens. split; [|split; [|split]].
+  - rewrite !len_app, len_header_struct, len_repz by lia.
+    change (len [0; 0; 0; 0]) with 4. lia.
+  - unfold header_struct. rewrite <- !app_assoc. apply takez_app_exact.
+  - unfold header_struct.
+    replace ((MAGIC ++ repz 0 (field_off hdr_layout "size" - len MAGIC) ++ le_bytes 4 (BLOCK - HDR)
+              ++ le_bytes 4 Gen.EnvelopeTables.envelope_header_version)
+             ++ (packed ++ [0; 0; 0; 0]) ++ repz 0 (BLOCK - HDR - len packed - 4))
+      with ((MAGIC ++ repz 0 (field_off hdr_layout "size" - len MAGIC) ++ le_bytes 4 (BLOCK - HDR))
+            ++ le_bytes 4 Gen.EnvelopeTables.envelope_header_version
+            ++ ((packed ++ [0; 0; 0; 0]) ++ repz 0 (BLOCK - HDR - len packed - 4)))
+      by (now rewrite <- !app_assoc).
+    eapply get_uint_at; try reflexivity. vm_compute. split; [discriminate|reflexivity].
+  - rewrite dropz_app_n by (now rewrite len_header_struct).
+    rewrite <- !app_assoc. cbn [app].
+    now apply attrs_roundtrip.
+Qed.
+
+(* header_repack_identity: re-serialising what was read from a packed header reproduces it byte for byte *)
+Theorem header_repack_identity attrs hdr :
+  wf_attrs attrs -> fits attrs ->
+  pack_header attrs Gen.EnvelopeTables.envelope_header_version = Ok hdr ->
+  len hdr = BLOCK /\
+  exists attrs', read_attributes (dropz hdr HDR) = Ok attrs' /\
+                 pack_header attrs' Gen.EnvelopeTables.envelope_header_version = Ok hdr.
+Proof.
+  intros Hwf Hfit Hh. destruct (pack_header_opens attrs _ hdr Hwf Hfit eq_refl Hh) as (Hl & _ & _ & Hr).
+  split; [exact Hl|]. exists attrs. now split.
+Qed.
+
+(* ================================================================== the plaintext tail *)
+Lemma len_crypto_footer p v : len (crypto_footer p v) = TAIL.
+Proof.
+  unfold crypto_footer. rewrite !len_app, !len_le_bytes.
+  change (field_off cf_layout "padding") with 504. change (len CF_MAGIC) with 25.
+  rewrite len_repz by lia. reflexivity.
+Qed.
+
+(* strip_exact: the padding and the footer block are removed exactly, for every payload and padding *)
+Theorem strip_exact payload padbytes fill :
+  len fill = STRIP - TAIL -> len padbytes < 2 ^ 32 ->
+  strip (plaintext payload padbytes fill) = Ok payload.
+Proof.
+  intros Hf Hp. unfold strip, plaintext.
+  pose proof (len_nonneg payload) as H0. pose proof (len_nonneg padbytes) as H1.
+  set (cf := crypto_footer (len padbytes) 1).
+  assert (Hcf : len cf = TAIL) by apply len_crypto_footer.
+  assert (Hlen : len (payload ++ padbytes ++ fill ++ cf) = len payload + len padbytes + STRIP).
+  { rewrite !len_app, Hf, Hcf. lia. }
+  rewrite Hlen.
+  replace (dropz (payload ++ padbytes ++ fill ++ cf) (len payload + len padbytes + STRIP - TAIL)) with cf.
+  2:{ replace (payload ++ padbytes ++ fill ++ cf) with ((payload ++ padbytes ++ fill) ++ cf)
+        by (now rewrite <- !app_assoc).
+      symmetry. apply dropz_app_n. rewrite !len_app, Hf. lia. }
+  assert (Hg : get_uint false cf_layout cf "padding" = Some (len padbytes)).
+  { unfold cf, crypto_footer.
+    replace (CF_MAGIC ++ repz 0 (field_off cf_layout "padding" - len CF_MAGIC) ++ le_bytes 4 (len padbytes)
+             ++ le_bytes 4 1)
+      with ((CF_MAGIC ++ repz 0 (field_off cf_layout "padding" - len CF_MAGIC)) ++ le_bytes 4 (len padbytes)
+            ++ le_bytes 4 1) by (now rewrite <- !app_assoc).
+    eapply get_uint_at; try reflexivity; try (change (256 ^ Z.of_nat 4) with (2 ^ 32); lia). }
+  rewrite Hg. cbn [of_option bind].
+  replace (len payload + len padbytes + STRIP - STRIP - len padbytes) with (len payload) by lia.
+  now rewrite takez_app_exact.
+Qed.
+
+(* ================================================================== the chunked read loop *)
+Lemma read_chunks_concat fuel :
+  forall data, (List.length data < fuel)%nat ->
+  exists cs, read_chunks fuel data = Ok cs /\ List.concat cs = data.
+Proof.
+  induction fuel as [|f IH]; intros data Hf; [lia|].
+  destruct data as [|x r].
+  - exists []. split; reflexivity.
+  - cbn [read_chunks].
+    assert (Hlt : (List.length (dropz (x :: r) CHUNK) < f)%nat).
+    { rewrite dropz_skipn. rewrite skipn_length.
+      assert (Hc : (1 <= Z.to_nat CHUNK)%nat) by (change CHUNK with 4194304; lia).
+      cbn [List.length] in *. lia. }
+    destruct (IH _ Hlt) as (cs & Hcs & Hcat). rewrite Hcs. cbn [bind].
+    exists (takez (x :: r) CHUNK :: cs). split; [reflexivity|].
+    cbn [List.concat]. rewrite Hcat. apply takez_dropz.
+Qed.
+
+Lemma read_chunks_no_fuel fuel data : (List.length data < fuel)%nat -> read_chunks fuel data <> Fuel.
+Proof. intros H. destruct (read_chunks_concat fuel data H) as (cs & -> & _). discriminate. Qed.
+
+(* ================================================================== the AEAD footer block *)
+Lemma len_aead_footer tag : len tag <= 4056 -> len (aead_footer tag) = BLOCK.
+Proof.
+  intros H. pose proof (len_nonneg tag). unfold aead_footer. rewrite !len_app, !len_le_bytes.
+  change (field_off aead_layout "data") with 32. change (field_off aead_layout "size") with 4088.
+  change (len AEAD_MAGIC) with 23. rewrite !len_repz by lia. change BLOCK with 4096. lia.
+Qed.
+
+Lemma aead_footer_fields tag :
+  len tag <= 4056 ->
+  get_uint false aead_layout (aead_footer tag) "version" = Some Gen.EnvelopeTables.envelope_aead_footer_version /\
+  get_uint false aead_layout (aead_footer tag) "size" = Some (len tag) /\
+  get_bytes aead_layout (aead_footer tag) "data" = Some (tag ++ repz 0 (4056 - len tag)).
+Proof.
+  intros H. pose proof (len_nonneg tag) as H0. unfold aead_footer.
+  change (field_off aead_layout "data") with 32. change (field_off aead_layout "size") with 4088.
+  change (len AEAD_MAGIC) with 23. change (32 - 23) with 9. replace (4088 - 32 - len tag) with (4056 - len tag) by lia.
+  set (ver := Gen.EnvelopeTables.envelope_aead_footer_version).
+  set (z := repz 0 (4056 - len tag)).
+  assert (Hz : len z = 4056 - len tag) by (apply len_repz; lia).
+  split; [|split].
+  - replace (AEAD_MAGIC ++ repz 0 9 ++ tag ++ z ++ le_bytes 4 (len tag) ++ le_bytes 4 ver)
+      with ((AEAD_MAGIC ++ repz 0 9 ++ tag ++ z ++ le_bytes 4 (len tag)) ++ le_bytes 4 ver ++ [])
+      by (rewrite app_nil_r; now rewrite <- !app_assoc).
+    eapply (get_uint_at aead_layout "version" (mkf "version" 4092 4 4 1 KUInt 0 0)); try reflexivity.
+    + rewrite !len_app, len_le_bytes, Hz. change (len AEAD_MAGIC) with 23. rewrite len_repz by lia. cbn [f_off]. lia.
+    + vm_compute. split; [discriminate|reflexivity].
+  - replace (AEAD_MAGIC ++ repz 0 9 ++ tag ++ z ++ le_bytes 4 (len tag) ++ le_bytes 4 ver)
+      with ((AEAD_MAGIC ++ repz 0 9 ++ tag ++ z) ++ le_bytes 4 (len tag) ++ le_bytes 4 ver)
+      by (now rewrite <- !app_assoc).
+    eapply (get_uint_at aead_layout "size" (mkf "size" 4088 4 4 1 KUInt 0 0)); try reflexivity.
+    + rewrite !len_app, Hz. change (len AEAD_MAGIC) with 23. rewrite len_repz by lia. cbn [f_off]. lia.
+    + change (256 ^ Z.of_nat 4) with 4294967296. lia.
+  - replace (AEAD_MAGIC ++ repz 0 9 ++ tag ++ z ++ le_bytes 4 (len tag) ++ le_bytes 4 ver)
+      with ((AEAD_MAGIC ++ repz 0 9) ++ (tag ++ z) ++ le_bytes 4 (len tag) ++ le_bytes 4 ver)
+      by (now rewrite <- !app_assoc).
+    eapply (get_bytes_at aead_layout "data" (mkf "data" 32 4056 1 4056 KChar 0 0)); try reflexivity.
+    rewrite len_app, Hz. cbn [f_size]. lia.
+Qed.
+
+(* ================================================================== opening a sealed file *)
+Lemma required_names :
+  Gen.EnvelopeTables.envelope_required_attributes = [N_keyInfo; N_cipherName; N_keyHash].
+Proof. reflexivity. Qed.
+
+Lemma env_open_sealed sha hdr attrs key iv ct tag :
+  header_opens hdr attrs -> sealed_attrs sha attrs key iv -> len tag <= 4056 ->
+  env_open (hdr ++ ct ++ aead_footer tag) =
+    Ok (mk_env Gen.EnvelopeTables.envelope_header_version attrs CIPHER (VBytes (sha (CIPHER ++ key)))
+               (Some (VBytes iv)) tag (len ct) hdr ct).
+Proof.
+  intros (Hl & Hm & Hv & Hr) ((ki & Hki) & (cn & Hcn & Hcnv) & (kh & Hkh & Hkhv) & (ia & Hia & Hiav)) Ht.
+  pose proof (len_nonneg ct) as H0. pose proof (len_nonneg tag) as H1.
+  set (ftr := aead_footer tag). set (file := hdr ++ ct ++ ftr).
+  assert (Hfl : len ftr = BLOCK) by (now apply len_aead_footer).
+  assert (Hlen : len file = 2 * BLOCK + len ct) by (unfold file; rewrite !len_app, Hl, Hfl; lia).
+  assert (Hhb : takez file BLOCK = hdr) by (unfold file; now apply takez_app_n).
+  assert (Hfb : dropz file (len file - BLOCK) = ftr).
+  { unfold file. replace (hdr ++ ct ++ ftr) with ((hdr ++ ct) ++ ftr) by (now rewrite <- app_assoc).
+    apply dropz_app_n. rewrite !len_app, Hl, Hfl. lia. }
+  assert (Hdata : takez (dropz file BLOCK) (len file - 2 * BLOCK) = ct).
+  { rewrite Hlen. unfold file. rewrite dropz_app_n by (now rewrite Hl).
+    apply takez_app_n. lia. }
+  destruct (aead_footer_fields tag Ht) as (Hfv & Hfs & Hfd). fold ftr in Hfv, Hfs, Hfd.
+  unfold env_open. cbv zeta. rewrite Hfb, Hdata, Hhb, Hl.
+  change (BLOCK <? HDR) with false. cbv iota.
+  rewrite Hm, beq_refl. cbn [negb]. rewrite Hv. cbn [of_option bind].
+  rewrite Z.eqb_refl. cbn [negb]. rewrite Hr. cbn [bind].
+  rewrite required_names. unfold has_all. cbn [forallb]. rewrite Hki, Hcn, Hkh. cbn [andb negb].
+  cbn [of_option bind]. rewrite Hcnv, beq_refl. cbn [negb].
+  rewrite Hlen. destruct (Z.ltb_spec (2 * BLOCK + len ct) BLOCK) as [Hc|_]; [change BLOCK with 4096 in Hc; lia|].
+  rewrite Hfv, Hfs, Hfd. cbn [of_option bind]. rewrite Z.eqb_refl. cbn [negb].
+  rewrite Hia, Hkhv, Hiav. rewrite takez_app_exact.
+  replace (2 * BLOCK + len ct - 2 * BLOCK) with (len ct) by lia. reflexivity.
+Qed.
+
+(* ================================================================== decrypt (seal ...) = payload *)
+Section RoundTrip.
+  Variable sha : list Z -> list Z.
+  Variable gcm_enc gcm_dec : list Z -> list Z -> list Z -> list Z.
+  Variable gcm_tag : list Z -> list Z -> list Z -> list Z -> list Z.
+  Variable gcm_ok : list Z -> list Z -> list Z -> list Z -> list Z -> bool.
+  Hypothesis dec_enc : forall k iv p, gcm_dec k iv (gcm_enc k iv p) = p.
+  Hypothesis ok_tag : forall k iv a c, gcm_ok k iv a c (gcm_tag k iv a c) = true.
+  Hypothesis tag_len : forall k iv a c, len (gcm_tag k iv a c) <= 4056.
+
+  Lemma decrypt_roundtrip_hdr hdr attrs key iv aad payload padbytes fill :
+    header_opens hdr attrs -> sealed_attrs sha attrs key iv ->
+    key_len_ok key = true -> iv <> [] ->
+    len fill = STRIP - TAIL -> len padbytes < 2 ^ 32 ->
+    open_decrypt sha gcm_dec gcm_ok true (seal gcm_enc gcm_tag hdr key iv aad payload padbytes fill) key aad
+    = Ok payload.
+  Proof.
+    intros Ho Hs Hk Hiv Hf Hp. unfold open_decrypt, seal.
+    rewrite (env_open_sealed sha hdr attrs key iv _ _ Ho Hs (tag_len _ _ _ _)). cbn [bind].
+    unfold decrypt, sha_input, iv_of, aad_of. cbn [e_cipher e_key_hash e_iv e_size e_data e_hdr e_digest].
+    cbn [hash_matches]. rewrite beq_refl. cbn [negb].
+    destruct iv as [|b r]; [contradiction|]. rewrite Hk. cbn [negb].
+    set (ct := gcm_enc key (b :: r) (plaintext payload padbytes fill)).
+    destruct (Z.ltb_spec (len ct) 0) as [Hc|_]; [pose proof (len_nonneg ct); lia|].
+    destruct (read_chunks_concat (S (List.length ct)) ct ltac:(lia)) as (cs & Hcs & Hcat).
+    rewrite Hcs. cbn [bind]. rewrite Hcat. unfold ct at 1. rewrite dec_enc.
+    rewrite (strip_exact payload padbytes fill Hf Hp). cbn [bind].
+    rewrite ok_tag. reflexivity.
+  Qed.
+
+  (* decrypt_roundtrip for the header the packer writes: every well-formed attribute set that fits the
+     block (all 12 types, any order and count), every payload, padding, IV and associated data *)
+  Theorem decrypt_roundtrip attrs key iv aad payload padbytes fill :
+    wf_attrs attrs -> fits attrs -> sealed_attrs sha attrs key iv ->
+    key_len_ok key = true -> iv <> [] ->
+    len fill = STRIP - TAIL -> len padbytes < 2 ^ 32 ->
+    exists hdr, pack_header attrs Gen.EnvelopeTables.envelope_header_version = Ok hdr /\
+      open_decrypt sha gcm_dec gcm_ok true (seal gcm_enc gcm_tag hdr key iv aad payload padbytes fill) key aad
+      = Ok payload.
+  Proof.
+    intros Hwf Hfit Hs Hk Hiv Hf Hp.
+    destruct Hfit as (packed & Hpk & Hsz).
+    eexists. split; [apply (pack_header_shape attrs _ packed Hpk Hsz)|].
+    apply decrypt_roundtrip_hdr with (attrs := attrs); try assumption.
+    eapply pack_header_opens; [exact Hwf | exists packed; split; eassumption | reflexivity |].
+    apply (pack_header_shape attrs _ packed Hpk Hsz).
+  Qed.
+End RoundTrip.
